@@ -17,6 +17,8 @@
 //!   * reserved — bytes that the protocol defines as zero padding / unused are zero (these are
 //!                the "padded" part of the statement; they become visible because the harness
 //!                device pre-fills transmit buffers with 0xA5)
+//!   * addressing — on 802.15.4 the destination an IPHC header decompresses to agrees with the
+//!                link destination of the frame (multicast <-> link broadcast, unicast <-> unicast)
 //!   * protocol — the frame claims a protocol the stack has no business emitting (unknown
 //!                ethertype / IP protocol / 802.15.4 frame type), i.e. a corrupted type field
 //! Deliberately NOT asserted (not in the statement): Ethernet minimum frame size / padding,
@@ -77,6 +79,10 @@ pub struct Verdict {
     pub undecodable: Option<String>,
     /// classes of datagrams that became complete with this frame (IPv4 / 6LoWPAN reassembly)
     pub completed: Vec<String>,
+    /// every COMPLETE UDP datagram this frame carries or completes, as the monitor decodes it:
+    /// (source, destination, source port, destination port, payload length). Lets a scenario
+    /// compare what a receiver would see with what it handed to the socket.
+    pub udp_seen: Vec<(Addr, Addr, u16, u16, usize)>,
 }
 
 fn be16(b: &[u8], o: usize) -> usize {
@@ -457,6 +463,7 @@ impl Monitor {
                 let a = self.v4asm.remove(&k).unwrap();
                 let mut v2 = Verdict { class: format!("{}/reassembled/ipv4", v.class.split('/').next().unwrap_or("")), ..Default::default() };
                 self.l4(&src, &dst, proto, &a.data[..t], ctx, out, &mut v2, false);
+                v.udp_seen.append(&mut v2.udp_seen);
                 v.completed.push(if v2.shape.is_empty() { v2.class } else { v2.shape });
             }
         }
@@ -730,6 +737,7 @@ impl Monitor {
         }
         let (sp, dp) = (be16(u, 0), be16(u, 2));
         let body = &u[8..];
+        v.udp_seen.push((src.clone(), dst.clone(), sp as u16, dp as u16, body.len()));
         let mut dhcp_client = false;
         if sp == 68 && dp == 67 && !is6 {
             dhcp_client = true;
@@ -1245,7 +1253,12 @@ impl Monitor {
             if self.lpasm.remove(&k).is_some() {
                 self.abandoned += 1;
             }
-            match Self::decompress(&p[4..], &ll_src, &ll_dst, Some(size)) {
+            let mut dst_seen = None;
+            let dec = Self::decompress(&p[4..], &ll_src, &ll_dst, Some(size), &mut dst_seen);
+            if let Some(d) = dst_seen {
+                Self::link_vs_ip_destination(&ll_dst, &d, out);
+            }
+            match dec {
                 Err(Undec::Unsupported(e)) => v.undecodable = Some(e),
                 Err(Undec::Malformed(cause, e)) => out.add("length", "6lowpan", cause, e),
                 Err(Undec::Protocol(cause, e)) => out.add("protocol", "6lowpan", cause, e),
@@ -1316,13 +1329,19 @@ impl Monitor {
         }
         if d >> 5 == 0b011 {
             v.class.push_str("/iphc");
-            match Self::decompress(p, &ll_src, &ll_dst, None) {
+            let mut dst_seen = None;
+            let dec = Self::decompress(p, &ll_src, &ll_dst, None, &mut dst_seen);
+            if let Some(d) = dst_seen {
+                Self::link_vs_ip_destination(&ll_dst, &d, out);
+            }
+            match dec {
                 Err(Undec::Unsupported(e)) => v.undecodable = Some(e),
                 Err(Undec::Malformed(cause, e)) => out.add("length", "6lowpan", cause, e),
                 Err(Undec::Protocol(cause, e)) => out.add("protocol", "6lowpan", cause, e),
                 Ok(d) => {
                     let mut v2 = Verdict { class: v.class.clone(), ..Default::default() };
                     self.ipv6(&d.packet, ctx, out, &mut v2, true, d.udp_cksum_elided, false);
+                    v.udp_seen.append(&mut v2.udp_seen);
                     v.class = v2.class;
                     v.shape = format!("{}|iphc={:02x}{:02x}|nhc={}", if v2.shape.is_empty() { v.class.clone() } else { v2.shape }, p[0], p[1], d.nhc);
                 }
@@ -1331,6 +1350,37 @@ impl Monitor {
         }
         v.class.push_str("/dispatch?");
         out.add("protocol", "6lowpan", "unknown-dispatch", format!("6LoWPAN dispatch octet {:#04x}", d));
+    }
+
+    /// The IPv6 destination an IPHC header decompresses to must agree with the 802.15.4
+    /// destination of the frame that carries it: the interface maps every multicast IPv6
+    /// destination to the link broadcast address 0xffff and every unicast one to the neighbor's
+    /// unicast link address (there is no other mapping in smoltcp, and RFC 4944 §9 knows none
+    /// that sends a multicast datagram to an EUI-64). A disagreement means the compressed header
+    /// does not say what the packet is: the IPHC setters are read-modify-write and a stale M /
+    /// DAC / DAM bit makes a receiver decode another destination and parse what follows it at
+    /// the wrong offset.
+    fn link_vs_ip_destination(ll_dst: &[u8], ip_dst: &[u8], out: &mut Out) {
+        if ll_dst.is_empty() {
+            return;
+        }
+        let ll_broadcast = ll_dst == [0xff, 0xff];
+        let ip_multicast = ip_dst[0] == 0xff;
+        if !ll_broadcast && ip_multicast {
+            out.add(
+                "addressing",
+                "6lowpan",
+                "multicast-ipv6-destination-in-a-frame-to-a-unicast-link-address",
+                format!("the frame is addressed to the unicast 802.15.4 address {} but its IPHC header decompresses to the multicast destination {}", crate::sim::hex(ll_dst), v6(ip_dst)),
+            );
+        } else if ll_broadcast && !ip_multicast {
+            out.add(
+                "addressing",
+                "6lowpan",
+                "unicast-ipv6-destination-in-a-link-broadcast-frame",
+                format!("the frame is addressed to the 802.15.4 broadcast address but its IPHC header decompresses to the unicast destination {}", v6(ip_dst)),
+            );
+        }
     }
 
     fn lp_complete(&mut self, k: &(Vec<u8>, u16), ctx: &Ctx, out: &mut Out, v: &mut Verdict) {
@@ -1342,13 +1392,14 @@ impl Monitor {
         let mut v2 = Verdict { class: "154/reassembled".into(), ..Default::default() };
         // source rule already applied on the FRAG1 header
         self.ipv6(&a.data[..a.size], ctx, out, &mut v2, true, a.udp_cksum_elided, true);
+        v.udp_seen.append(&mut v2.udp_seen);
         v.completed.push(if v2.shape.is_empty() { v2.class } else { v2.shape });
     }
 
     /// LOWPAN_IPHC (+ LOWPAN_NHC) decompression, RFC 6282. Returns the uncompressed packet as
     /// far as this frame carries it. `total`: datagram_size when inside FRAG1 (lengths are then
     /// derived from it), otherwise lengths are derived from the frame.
-    fn decompress(p: &[u8], ll_src: &[u8], ll_dst: &[u8], total: Option<usize>) -> Result<Decomp, Undec> {
+    fn decompress(p: &[u8], ll_src: &[u8], ll_dst: &[u8], total: Option<usize>, dst_seen: &mut Option<[u8; 16]>) -> Result<Decomp, Undec> {
         let mal = |c: &'static str, e: String| Undec::Malformed(c, e);
         if p.len() < 2 || p[0] >> 5 != 0b011 {
             return Err(Undec::Unsupported(format!("first fragment does not start with IPHC (dispatch {:#04x})", p.first().copied().unwrap_or(0))));
@@ -1482,6 +1533,8 @@ impl Monitor {
             }
         }
         let _ = get;
+        // the addresses are known from here on, whatever becomes of the next-header part
+        *dst_seen = Some(dst);
         // ---- next headers
         let mut pkt = vec![0u8; 40];
         pkt[..4].copy_from_slice(&tc_fl);
